@@ -28,7 +28,7 @@ SLICE = 130
 
 def bounds(tier):
     if tier == "quick":
-        return dict(lengths=list(range(1, 11)) + [16], k_range="[-2n-1, 2n+1]", operators=[">>", "<<"],
+        return dict(lengths=list(range(1, 11)) + [16], k_range="[-2n-1, 2n+1] plus +-(37n+3), +-(1000n+4), +-(5003n+1), +-(10^6+7), +-(2^40+1)", operators=[">>", "<<"],
                     feature_table="all simple (a,b,strand) + join menu + whole-length (n<=10); boundary menu for n=16")
     return dict(lengths=list(range(1, 16)) + [16, 23, 40], k_range="[-2n-1, 2n+1]", operators=[">>", "<<"],
                 feature_table="all simple (a,b,strand) + join menu + whole-length (n<=15); boundary menu for n in {16,23,40}")
@@ -36,7 +36,7 @@ def bounds(tier):
 
 def goals(tier):
     return ["closure-reached", "origin-spanning-feature", "past-the-end-location-produced", "negative-k", "k-larger-than-n",
-            "whole-length-source", "minus-strand-join", "all-n-states-reached"]
+            "whole-length-source", "minus-strand-join", "all-n-states-reached", "k-thousands-of-turns"]
 
 
 def word(n):
@@ -62,7 +62,7 @@ def units(tier):
 
 def space_size(tier):
     """independently computed number of edges: every one of the n rotation states x 2 operators x (4n+3) values of k, per graph"""
-    return sum(n * 2 * (4 * n + 3) for (n, s, nsl) in units(tier))
+    return sum(n * 2 * (4 * n + 3 + 10) for (n, s, nsl) in units(tier))
 
 
 def initial(n, s, nsl):
@@ -165,6 +165,8 @@ def run_unit(unit, st, tier):
     n, s, nsl = unit
     init = initial(n, s, nsl)
     ks = sorted(range(-2 * n - 1, 2 * n + 2), key=lambda k: (abs(k), k < 0))
+    # amounts many times larger than the record (both signs): rotation must still be a function of k mod n
+    ks += [x for big in (37 * n + 3, 1000 * n + 4, 5003 * n + 1, 10 ** 6 + 7, 2 ** 40 + 1) for x in (big, -big)]
     rec0 = build(init)
     obs0 = observe(rec0, n)
     if obs0 != model(init, 0):
@@ -208,6 +210,8 @@ def run_unit(unit, st, tier):
                         st.goal("negative-k")
                     if abs(k) > n:
                         st.goal("k-larger-than-n")
+                    if abs(k) > 1000 * n:
+                        st.goal("k-thousands-of-turns")
                     if any(pp[1] > n for f in out.features for pp in snapshot.loc_parts(f.location)):
                         st.goal("past-the-end-location-produced")
                     kk = snapshot.key(obs)
